@@ -106,6 +106,12 @@ def run_job(job):
             return False
         R['replays'] += 1
         rp = replay(pid, hname, params, model, opts)
+        # inputs that the counterexample leaves free get generic values; try a few different ones
+        for salt in range(1, 1 + int(opts.get('replay_retries', 4))):
+            if rp['failed'] or (rp['error'] and not rp['invalid']):
+                break
+            model = dict(model, __salt__=salt)
+            rp = replay(pid, hname, params, model, opts)
         if kind == 'exception' and rp['error'] and not rp['failed'] and rp['error'].split(':')[0] != detail.split(':')[0]:
             R['inconclusive'].append(dict(label=label, why='symbolic path raised %s but the concrete replay raised %s' % (detail[:200], rp['error'][:200])))
             return False
